@@ -103,7 +103,12 @@ Verdict(r) ==
                missing == {k \in judged : present(k) /\ Map[k][2] \notin reported}
                extra == {k \in judged : ~present(k) /\ Map[k][2] \in reported}
                wrong == {k \in judged : present(k) /\ Map[k][2] \in reported /\ ~ValueOK(Map[k], rawOf(k), cellOf(Map[k][2]))}
-           IN IF fr.sawerr THEN (IF r.out.exc = "ResponseError" THEN Pass ELSE Fail("expected-ResponseError", 0))
+           IN IF fr.sawerr THEN (IF r.out.exc # "ResponseError" THEN Fail("expected-ResponseError", 0)
+                                 ELSE IF Props(bank).latch /\ fin[3] = 170 THEN Fail("left-latched-after-failed-read", 0)
+                                 ELSE Pass)
+              \* no answer to the read of location 0: the bank does not exist for this unit
+              ELSE IF \E j \in 1..Len(fr.reads) : fr.reads[j][1] = 0 /\ fr.reads[j][2] = "none"
+                   THEN (IF r.out.exc = "MemoryLocationNotImplemented" THEN Pass ELSE Fail("expected-MemoryLocationNotImplemented", 0))
               ELSE IF r.out.exc # "none" THEN Fail("unexpected-exception:" \o r.out.exc, 0)
               ELSE IF fr.snapbad THEN Fail("not-a-snapshot", 0)
               ELSE IF missing # {} THEN Fail("value-missing:" \o Map[CHOOSE k \in missing : TRUE][2], 0)
